@@ -289,6 +289,42 @@ theorem old_ne_new : absOfL P L d0 ≠ (absNew P (run ⟨d0, []⟩ pre).dur m1 w
   show absLog L d0.mt [1, 2] = absLog L m1 [1, 2, 3] → False
   decide
 
+/-- the same old state while the previous sync's WAL (sequence number 1, already applied) is still on disk and its
+truncation is issued but not yet fsynced -/
+def d0p : D := { d0 with wal := some (1, []) }
+def vol0 : List (Eff Nat TMeta (Nat × List (Nat × Nat)) Nat) := [.walSet none]
+
+theorem hinertp : ∀ b, htView P d0p b = d0p.pages File.fHt b := fun _ => rfl
+theorem hvol0 : ∀ e ∈ vol0, e = Eff.walSet none := by intro e he; simpa [vol0] using he
+
+theorem hprep : ∀ ev ∈ pre, EvA (AllowedPreL' P L d0p) ev := by
+  intro ev hev
+  simp only [pre, List.mem_cons, List.mem_nil_iff, or_false] at hev
+  rcases hev with rfl | rfl | rfl | rfl | rfl | rfl
+  · show absLog L d0p.mt [1, 2, 3] = absLog L d0p.mt d0p.log
+    decide
+  · trivial
+  · exact ⟨Or.inl rfl, fun h => absurd h.2 (by decide)⟩
+  · trivial
+  · show (2 : Nat) ≠ 1
+    decide
+  · trivial
+
+theorem hflushedp : (run ⟨d0p, vol0⟩ pre).vol = [] := by decide
+theorem hwalp : (run ⟨d0p, vol0⟩ pre).dur.wal = some w1 := rfl
+
+theorem hpostp : PostOKL P L (run ⟨d0p, vol0⟩ pre).dur m1 w1
+    ⟨applyEff (run ⟨d0p, vol0⟩ pre).dur (.setMeta m1), []⟩ post := by
+  refine ⟨?_, ⟨rfl, rfl⟩, trivial, ?_, trivial, trivial⟩
+  · show absLog L m1 [2, 3] = absLog L m1 [1, 2, 3]
+    decide
+  · show FullHt P w1 _
+    intro b c h
+    simp only [P, w1, lookupD] at h
+    by_cases hb : 5 = b
+    · subst hb; simp at h; subst h; rfl
+    · simp [hb] at h
+
 /-- an image in need of recovery: meta of the new state, WAL with the same sequence number, table not yet written,
 a tail record 4 beyond the live range and the lagging record 1 -/
 def dR : D := { pages := fun _ _ => 0, mt := m1, wal := some w1, log := [1, 2, 3, 4] }
